@@ -464,6 +464,9 @@ simcam_start(struct Camera* camera)
     self->streamer.is_running = 1;
     self->im.last_emitted_frame_id = -1;
     self->im.frame_id = -1;
+    // simcam_stop() fires a trigger to wake a waiting streamer; if the streamer
+    // was not waiting nobody consumed it. It must not release a frame now.
+    self->software_trigger.triggered = 0;
     TRACE("SIMULATED CAMERA: thread launch");
     CHECK(thread_create(&self->streamer.thread,
                         (void (*)(void*))simulated_camera_streamer_thread,
